@@ -90,6 +90,7 @@ TAGS = {1: "push_was_empty", 2: "push_not_empty", 3: "push_not_empty_no_wakeup",
 #   the lane is locked, so a worker never finds it locked)
 REQUIRED = [1, 2, 3, 6, 8, 9, 11, 13, 15, 18, 19, 22, 23, 24, 25, 26, 29, 31]
 OVERRIDE_TAGS = [4, 10, 32, 33]
+REPLAY_ATTEMPTS = [(True, 0), (False, 1), (True, 1), (False, 2), (True, 3), (False, 4), (True, 5)]
 
 
 def field_numbers():
@@ -562,7 +563,7 @@ def coq_conform(name, jobs, chunk_events=12000, timeout=900, workers=4, abstract
 # ----------------------------------------------------------------------------------------------------------------------
 # global replay: the whole round as a run of SLane (SLaneR.sched)
 
-def build_schedule(rd, lay, fn, threads):
+def build_schedule(rd, lay, fn, threads, alt=False, mode=0):
     """threads: list of (tid, [NEv], abstraction rows).  Returns (queues {tid: [(kind,arg,sh,st,item,early,id)]}, order [tid],
     number of SLane.ostep actions, i.e. need_override continuations) or None when the exact chains cannot be built."""
     lane, F_ST, F_TL = rd.lane, fn["dq_state"], fn["dq_items_tail"]
@@ -581,6 +582,16 @@ def build_schedule(rd, lay, fn, threads):
             i, kind, arg, sh, stv, item, early = row
             ev = tr[i]
             anchor = float(ev.seq)
+            if mode:
+                # the operation happened after the thread's previous stamp and before its own: mode 1 takes the earliest
+                # moment, modes >= 2 a pseudo-random one in between (deterministic in mode, thread, index)
+                lo = float(tr[i - 1].seq) if i > 0 else float(rd.seq0)
+                if mode == 1:
+                    anchor = lo + 0.5
+                else:
+                    h = (mode * 0x9E3779B97F4A7C15 + tid * 0xBF58476D1CE4E5B9 + i * 0x94D049BB133111EB) & 0xFFFFFFFFFFFFFFFF
+                    h ^= h >> 31
+                    anchor = lo + (anchor - lo) * (((h * 0x2545F4914F6CDD1D) & 0xFFFFFFFF) / 4294967296.0 + 1e-3)
             if early and prev is not None:
                 anchor = prev[0]
             a = [anchor, tid, k, row, ev]
@@ -611,27 +622,32 @@ def build_schedule(rd, lay, fn, threads):
                     changed = True
         if not changed:
             break
+    # A probe that read NULL (PA_probe / PA_oprobe -> Idle) happened between the reset that emptied the list and the next
+    # exchange, whatever its (late) stamp says: put it right after the last reset stamped before it that follows the thread's own
+    # exchange (`alt`: right after the FIRST such reset).  Without this a push stamped a few tickets earlier is executed first
+    # and the probe's recorded outcome is lost for good.
+    tchain = chains[1]
+    pos_in_chain = {id(a): k for k, a in enumerate(tchain)}
+    for tid, lst in per_thread.items():
+        last_x = None
+        for a in lst:
+            row, ev = a[3], a[4]
+            if row[1] == 2 and row[3] in (2, 3):
+                last_x = a
+            if row[1] == 2 and row[3] == 0 and ev.kind == 1 and ev.fld == F_TL and ev.obj == lane and ev.a == 0 and last_x is not None:
+                j = pos_in_chain.get(id(last_x))
+                if j is None:
+                    continue
+                resets = [c for c in tchain[j + 1:] if c[4].kind == 4]
+                cands = [c for c in resets if c[0] < a[0]]
+                pickc = (cands[0] if alt else cands[-1]) if cands else (resets[0] if resets else None)
+                if pickc is not None:
+                    a[0] = pickc[0] + eps / 4
     acts.sort(key=lambda a: (a[0], a[1], a[2]))
-    # ids: the k-th tail exchange of the chain enqueues item k; a pop takes the oldest instance of its address still queued
-    xid, k = {}, 0
-    for e in torder:
-        if e.kind == 3:
-            xid[id(e)] = k
-            k += 1
-    queued = []       # (address, id) in chain order, consumed by the pops in their (serialised) order
-    chain_items = [(e.b, xid[id(e)]) for e in torder if e.kind == 3]
-    popped = set()
+    # item identity is checked inside the scheduler BY ADDRESS (SLaneR.item_ok); no id is computed here: an id derived from the
+    # tail chain would depend on how the recorder's stamps resolve the chain's ambiguities (two pushes onto an empty list
+    # drained in different lock sessions chain either way)
     ids = {}
-    for a in acts:
-        row = a[3]
-        if row[1] == 2 and row[3] in (2, 3):
-            ids[(a[1], a[2])] = xid.get(id(a[4]), -1)
-        elif row[1] == 2 and row[3] in (11, 12):
-            h = row[5]
-            got = next((i for (ad, i) in chain_items if ad == h and i not in popped), -1)
-            popped.add(got)
-            ids[(a[1], a[2])] = got
-            ids[(a[1], a[2] + 1)] = got            # the PW_incall step of the same item
     queues, outside = {}, 0
     for tid, lst in per_thread.items():
         q = []
@@ -792,7 +808,7 @@ def judge(plan, tag, fn):
     # the whole round as a run of the global model
     rp = {"rounds_replayed_as_SLane_runs": 0, "override_continuations_replayed": 0, "model_actions_replayed": 0,
           "rounds_not_replayed_trace_rejected": 0}
-    todo, tkeys = [], []
+    todo, tkeys, tths = [], [], []
     for key, ths in sorted(accepted.items()):
         rd, lay, entry = rinfo[key]
         if not all(a for (a, _, _, _) in ths):
@@ -806,18 +822,28 @@ def judge(plan, tag, fn):
         queues, order, outside = sch
         todo.append(((rd.st0 >> 36) & 3, queues, order))
         tkeys.append((key, outside, len(order)))
+        tths.append([(tid, tr, rows) for (_, tid, tr, rows) in ths])
     results = coq_replay(tag + "_replay", todo) if todo else []
-    # The preferred order comes from the recorder's stamps, which a preempted thread takes late: under machine load the
-    # first-fit scheduler with a window of 48 entries can be led into a dead end.  A round it does not consume is replayed
-    # once more, alone, with every thread a candidate at every step (window = whole order); only that verdict is reported.
+    # The preferred order comes from the recorder's stamps, which a preempted thread takes late (an operation happened somewhere
+    # between its thread's previous stamp and its own): under machine load the first-fit scheduler can be led into a dead end by
+    # a wrong priority.  A round it does not consume is replayed again, alone, with every thread a candidate at every step
+    # (window = whole order) under other placements of the operations inside those intervals (REPLAY_ATTEMPTS); only the last
+    # verdict is reported.  A wrong order can only make the replay fail, never succeed wrongly: the scheduler checks every
+    # action against the model.
     again = [k for k, r in enumerate(results) if r[1] != 0]
     if again:
-        rp["rounds_replayed_on_second_attempt_full_window"] = 0
-        second = coq_replay(tag + "_replay2", [todo[k] for k in again], window=1000000, workers=1)
-        for k, r in zip(again, second):
-            if r[1] == 0:
-                rp["rounds_replayed_on_second_attempt_full_window"] += 1
-            results[k] = r
+        rp["rounds_replayed_on_a_later_attempt"] = 0
+        rp["replay_attempts_extra"] = 0
+        for k in again:
+            rd, lay, entry = rinfo[tkeys[k][0]]
+            for (alt, mode) in REPLAY_ATTEMPTS:
+                q2, o2, _ = build_schedule(rd, lay, fn, tths[k], alt=alt, mode=mode)
+                rp["replay_attempts_extra"] += 1
+                r = coq_replay("%s_replay2_%d" % (tag, mode), [(todo[k][0], q2, o2)], window=1000000, workers=1)[0]
+                if r[1] == 0:
+                    rp["rounds_replayed_on_a_later_attempt"] += 1
+                    results[k] = r
+                    break
     for (key, outside, nact), r in zip(tkeys, results):
         rd, lay, entry = rinfo[key]
         done, left, stv, rootq, llen, nextid, idle, nstarted, fifo, stuck = r[:10]
